@@ -587,6 +587,19 @@ def sibling_closure_cases(ck, n_cases, n_samples):
             src = ("fn mk(a){\n  let sv = a\n  %s\n  (%s)\n}\nfn dsp(){\n  let (%s) = mk(%s)\n  %s\n}\n"
                    % ("\n  ".join(defs), ", ".join(names), ", ".join(names), init, " + ".join("(%s) * %d.0" % (c, 10 ** k) for k, c in enumerate(calls))))
         out.append(mk_case("sibling", "sib%d" % i, src, n_samples))
+    # closures created WHILE dsp runs that outlive the sample: stored in a global (re-triggered every k-th sample) and called on later
+    # samples, which allocate locals of their own (response to seeded change C18c: the store of captured locals released after every dsp call)
+    for i in range(max(10, n_cases // 3)):
+        r = ck.rng.fork(("C18retrig", i))
+        k = r.choice([2, 3, 4, 5])
+        body = r.choice(["level = level + step\n        level", "let t = level\n        level = level * 2.0 + step\n        t", "level + step"])
+        nloc = r.range(1, 3)
+        locs = "".join("    let q%d = %s\n" % (j, r.choice(["0.5", "2.0", "tick * 0.25", "(tick, 1.0).0"])) for j in range(nloc))
+        use = " * ".join(["voice()"] + ["q%d" % j for j in range(nloc)])
+        src = ("fn make_ramp(step){\n    let level = %s\n    | | {\n        %s\n    }\n}\nlet voice = make_ramp(0.0)\nlet tick = 0.0\n"
+               "fn dsp(){\n    tick = tick + 1.0\n    if (tick %% %d.0 == 1.0) {\n        voice = make_ramp(tick)\n    } else { }\n%s    %s\n}\n"
+               % (r.choice(["0.0", "1.0"]), body, k, locs, use))
+        out.append(mk_case("sibling", "retrig%d" % i, src, max(n_samples, 2 * k + 2)))
     return out
 
 
